@@ -238,11 +238,16 @@ def r7(ctx: RuleCtx) -> None:
         if sp.outcome == 'raise':
             continue
         e_val = m_val = None
+        mw = [_strip_calls(w) for w in sp.writes('self.is_multiline')]
+        if mw:
+            ml_term = mw[-1]            # whatever its spelling: its meaning per token kind is checked below over the declared kinds
         for t, v in sp.conds():
             if t == ('name', esc):
                 e_val = v
             elif _strip_calls(t) == ml_term:
                 m_val = v
+            elif any(x == ('name', f'{tok}.tid') for x in subterms(t)):
+                raise Undecided(f'StringNode.__init__: the token kind is tested as {show(t)}')
         vals = [_strip_calls(w) for w in sp.writes('self.value')]
         decoded = any(w == ('call', 'self.escape', None, (), ()) for w in vals)
         raw = [_strip_calls(w) for w in sp.writes('self.raw_value')]
@@ -258,6 +263,29 @@ def r7(ctx: RuleCtx) -> None:
                     f'StringNode: escape={e_val} multiline={m_val} decoded={decoded}',
                     f'with escape={e_val} and a {"multi-line" if m_val else "single-line"} token the value is {"decoded" if decoded else "left raw"}; '
                     "reference: '...' decodes escapes, '''...''' does not", sp.last_node)
+    # meaning of is_multiline for each declared string token kind (finite domain: ALL_STRINGS), by constant folding of its defining expression
+    defs = [st for st in ast.walk(init) if isinstance(st, ast.Assign) and len(st.targets) == 1 and norm(st.targets[0]) == 'self.is_multiline']
+    if len(defs) != 1:
+        raise Undecided('StringNode.__init__: is_multiline is not assigned exactly once')
+
+    class _Tid(ast.NodeTransformer):
+        def __init__(self, tid: str):
+            self.tid = tid
+
+        def visit_Attribute(self, n: ast.Attribute) -> ast.AST:
+            if norm(n) == f'{tok}.tid':
+                return ast.copy_location(ast.Constant(value=self.tid), n)
+            return self.generic_visit(n)
+    import copy as _cp
+    for tid in strings:
+        e = _Tid(tid).visit(_cp.deepcopy(defs[0].value))
+        ast.fix_missing_locations(e)
+        got_ml = fold_expr(repo, mod, e)
+        if not isinstance(got_ml, bool):
+            raise Undecided(f'StringNode.__init__: is_multiline does not fold to a boolean for the token kind {tid}')
+        ctx.require(got_ml == ('multiline' in tid), f'StringNode: a {tid} token is {"" if "multiline" in tid else "not "}multi-line', mod, 'StringNode.__init__',
+                    f'is_multiline for {tid}: {got_ml}', f'for a {tid} token is_multiline is computed as {got_ml} (`{short(defs[0].value, 60)}`): '
+                    "'''...''' literals are raw, '...' literals decode escapes", defs[0])
     ctx.require(any(m is False for _, m in seen) and any(m is True for _, m in seen), 'StringNode: both the single-line and the multi-line row exist', mod, 'StringNode.__init__',
                 f'StringNode rows {sorted(map(str, seen))}', f'rows {sorted(map(str, seen))}', init)
     esc_fn = mod.func('StringNode.escape')
